@@ -1,12 +1,12 @@
 SPECIFICATION Spec
 CONSTANTS
-  NodeSeq <- N3
+  NodeSeq <- N2
   Elems = {"x", "y"}
   Defects = {}
   Types = {"gcounter", "pncounter", "flag", "lww", "mvreg", "orset", "ormap"}
   Amounts = {1}
   MaxTs = 2
-  MaxBatch = 1
+  MaxBatch = 2
   MaxUpd = 2
   MaxDeliver = 2
   MaxMerge = 1
